@@ -176,6 +176,7 @@ def check_P3(prog, rep, eff, key, f, rasters):
             continue
         kws = {k.arg: k.value for k in call.keywords if k.arg}
         probs = []
+        undecided = []
         primary = next((p_ for p_ in f.params if p_ in rasters), None)
         for field in ('coords', 'dims', 'attrs'):
             v = kws.get(field)
@@ -183,16 +184,58 @@ def check_P3(prog, rep, eff, key, f, rasters):
                 probs.append('%s= missing' % field)
                 continue
             src = attr_source(scope, v, field)
+            rb = rebound(scope, src[0]) if src is not None and bind.get(src[0]) in rasters else None
             if src is None or bind.get(src[0]) not in rasters:
                 probs.append('%s=%s is not the input raster\'s .%s' % (field, norm(v)[:50], field))
+            elif rb is not None and rb[0] == 'reordered' and field in ('coords', 'dims'):
+                probs.append('`%s` is no longer the raster the caller passed when its .%s is read: it was re-bound by `%s` (a selection / '
+                             're-ordering of its cells), so output cell [i, j] does not belong to input cell [i, j]' % (src[0], field, rb[1]))
+            elif rb is not None and rb[0] == 'unknown' and field in ('coords', 'dims'):
+                undecided.append('`%s` is re-bound by `%s` before its .%s is read' % (src[0], rb[1], field))
             elif src[1] == 'shared-then-edited':
                 probs.append('attrs of the input are edited without a deep copy')
             elif primary is not None and bind.get(src[0]) != primary:
                 # several rasters go in, one identity comes out: the first raster parameter's, as in every sibling function
                 probs.append('%s is taken from `%s`, not from the first raster `%s` whose identity the result keeps' % (
                     field, bind.get(src[0]), primary))
-        rep.add('P3', scope, entry, norm(call)[:200], call.lineno, not probs,
-                'the result must carry the input raster\'s coords (whole mapping), dims and attrs: ' + '; '.join(probs))
+        rep.add('P3', scope, entry, norm(call)[:200], call.lineno, False if probs else (None if undecided else True),
+                'the result must carry the input raster\'s coords (whole mapping), dims and attrs: ' + '; '.join(probs + undecided))
+
+
+REORDER = ('isel', 'sel', 'transpose', 'sortby', 'reindex', 'reindex_like', 'roll', 'shift', 'squeeze', 'expand_dims', 'swap_dims',
+           'stack', 'unstack', 'drop_sel', 'drop_isel', 'head', 'tail', 'thin', 'coarsen', 'pad', 'interp', 'interp_like')
+KEEPING = ('astype', 'copy', 'chunk', 'persist', 'compute', 'load', 'fillna', 'where', 'clip', 'round', 'rename')
+
+
+def rebound(scope, name):
+    """None when the raster variable `name` (a parameter) is never assigned in `scope`, or only to something that has the same
+    cells in the same places (`x = x.astype(t)`, `x = x.copy()`); ('reordered', text) when some assignment selects or re-orders
+    cells (`x = x.isel(y=slice(None, None, -1))`, `x = x.T`, `x = x[::-1]`); ('unknown', text) for any other re-binding."""
+    worst = None
+    for n in scope.own_nodes():
+        tgts = []
+        if isinstance(n, ast.Assign):
+            tgts = [(t_, n.value) for t_ in n.targets]
+        elif isinstance(n, (ast.AnnAssign, ast.AugAssign)) and n.value is not None:
+            tgts = [(n.target, n.value)]
+        for t_, v_ in tgts:
+            if not (isinstance(t_, ast.Name) and t_.id == name):
+                continue
+            kind = 'unknown'
+            if isinstance(v_, ast.Call) and isinstance(v_.func, ast.Attribute) and isinstance(v_.func.value, ast.Name) and v_.func.value.id == name:
+                if v_.func.attr in REORDER:
+                    kind = 'reordered'
+                elif v_.func.attr in KEEPING:
+                    kind = 'same'
+            elif isinstance(v_, ast.Attribute) and isinstance(v_.value, ast.Name) and v_.value.id == name and v_.attr == 'T':
+                kind = 'reordered'
+            elif isinstance(v_, ast.Subscript) and isinstance(v_.value, ast.Name) and v_.value.id == name:
+                kind = 'reordered'
+            if kind == 'reordered':
+                return ('reordered', norm(n)[:80])
+            if kind == 'unknown' and worst is None:
+                worst = ('unknown', norm(n)[:80])
+    return worst
 
 
 def attr_source(scope, v, field):
